@@ -1158,6 +1158,18 @@ class FnFlow:
             self.ob(rule, loc, 'role:%s:%s' % (tg.short, role[1]), ok,
                     ('the stack entry pushed here records the version of read section `%s`, which is not the section opened on the node being pushed (%s): a later rehydrate/check would validate against the wrong lock word' if rule == 'LOCK-8' else
                      'argument `%s` passed for section parameter `' + role[1] + '` of %s() is not the read section opened on %s: the callee would validate / upgrade the wrong lock') % ((self.nm(cs), self.tname(T)) if rule == 'LOCK-8' else (self.nm(cs), tg.short, self.tname(T))))
+        elif role[0] == 'WGd':
+            gv = cvar(role[1])
+            tv = cvar(role[2][1])
+            if gv is None or tv is None or isinstance(tv, tuple):
+                return
+            T = (role[2][0], tv)
+            known = [x for x in W.sel('W') if x[1] == gv]
+            if not known:
+                return          # nothing known about the guard's lock: no verdict
+            ok = any(W.same_target(x[2], T) for x in known)
+            self.ob('ROLE', loc, 'role:%s:%s' % (tg.short, role[1]), ok,
+                    'write guard `%s` passed for `%s` of %s() is not the guard on the lock of the node passed for `%s` (%s): the callee unlocks-and-obsoletes through it the lock of ANOTHER node (here: the two guards of a shrink are swapped) - in release builds both locks still end up obsolete, in assertion-enabled builds `source_node_guard.guards(lock(source_node))` aborts a legal remove: behaviour depends on the build configuration' % (self.nm(gv), role[1], tg.short, role[2][1], self.tname(T)))
         elif role[0] == 'LF':
             c = cvar(role[1])
             sv = cvar(role[2])
